@@ -23,6 +23,9 @@ scan, `Generated/SetSites.lean`) fall into a few kinds; each kind is one functio
 * `siteTryDefNodes`                     stacked_scopes.py `FunctionScope.suppressing_subscope`
                                         (`list(nodes - old_defn_nodes.get(key, set()))`) +
                                         `uniq_chain` + `unite_values`
+* `siteDefNodes`                        stacked_scopes.py `_get_value_from_nodes` over the frozenset
+                                        `_ConstrainedValue.definition_nodes` (`_resolve_value`) and
+                                        over `name_to_all_definition_nodes[v]` (`get_local`)
 * `siteOrBound`                         value.py `intersect_bounds_maps` (`tuple(bound_lists)` /
                                         `next(iter(bound_lists))`)
 * `siteAny`, `siteAll`                  `any(... for x in S)` / `for x in S: if …: return True`
@@ -41,7 +44,9 @@ arg_spec.py `_cached_get_argspec`, `_get_generic_bases_cached`, annotations.py `
 and the protocol-compatibility check of type_object.py `TypeObject.can_assign` (:146‥164) with the
 recursion guard `ctx.assumed_compatibilities` (checker.py:228‥242) and `_protocol_positive_cache`
 (`check`): cache key = the other VALUE only (not the mode `ctx.should_exclude_any()`, not the
-assumptions in force); guard key = (self TypeObject, other TypeObject).
+assumptions in force, not the generic arguments of the expected protocol — `self_val`; the cache
+lives on the TypeObject of the protocol *class*, shared by `SupportsAbs[int]` and
+`SupportsAbs[str]`); guard key = (self TypeObject, other TypeObject).
 
 Not modelled: how `get_attribute_from_value` finds members and how `expected.can_assign(actual)`
 decides one slot (that is the value kernel, C03/C04) — a *world* lists, per (protocol, value), the
@@ -89,15 +94,17 @@ def siteDisallowedKinds (order : List String) : String := joinPlain order
 inductive MemberOutcome | ok | missing | conflict
   deriving DecidableEq, Repr, Inhabited
 
+/-- The first line of the `CanAssignError` for one member (type_object.py:191‥198). -/
+def failText (other m : String) : MemberOutcome → Option String
+  | .ok => none
+  | .missing => some (other ++ " has no attribute '" ++ m ++ "'")
+  | .conflict => some ("Value of protocol member '" ++ m ++ "' conflicts")
+
 /-- type_object.py `_is_compatible_with_protocol`: `for member in self.protocol_members:` … return
 the first `CanAssignError` (its first line), or `none` = compatible. -/
 def siteProtocolFirstFail (other : String) (outcome : String → MemberOutcome) (order : List String) :
     Option String :=
-  order.findSome? fun m =>
-    match outcome m with
-    | .ok => none
-    | .missing => some (other ++ " has no attribute '" ++ m ++ "'")
-    | .conflict => some ("Value of protocol member '" ++ m ++ "' conflicts")
+  order.findSome? fun m => failText other m (outcome m)
 
 /-- type_object.py `TypeObject.can_assign` :155‥161: `for base in other.artificial_bases:` first
 non-error sub-result replaces the error. -/
@@ -166,6 +173,14 @@ followed by `list(nodes - old)` = the block's own assignments in set order (`ord
 and `unite_values` keep first occurrences. Values are abstract tokens. -/
 def siteTryDefNodes (pre : List Nat) (order : List Nat) : List Nat := dedup (pre ++ order)
 
+/-- stacked_scopes.py `FunctionScope._get_value_from_nodes` fed with a set of definition nodes:
+`_resolve_value` passes `_ConstrainedValue.definition_nodes` (a frozenset built by
+`add_constraint` from the variable's current definition nodes), `get_local` passes
+`name_to_all_definition_nodes[varname]` for references without a node. The values of the nodes, in
+set order (`order`), are flattened, constrained member by member (`keep`) and united. -/
+def siteDefNodes (keep : Nat → Bool) (order : List (List Nat)) : List Nat :=
+  dedup ((order.flatMap id).filter keep)
+
 /-- value.py `intersect_bounds_maps`, per type variable: `[OrBound(tuple(S))] if len(S) > 1 else
 next(iter(S))`; an `OrBound` is modelled as the list of its alternatives. -/
 def siteOrBound (order : List (List Nat)) : List (List (List Nat)) :=
@@ -174,21 +189,23 @@ def siteOrBound (order : List (List Nat)) : List (List (List Nat)) :=
   | [b] => b.map fun x => [[x]]
   | _ => []
 
+/-- Take the element at position `i` out of a list (`set.pop()` takes *some* element). -/
+def removeAt {α : Type} : Nat → List α → Option (α × List α)
+  | _, [] => none
+  | 0, x :: l => some (x, l)
+  | i + 1, x :: l => (removeAt i l).map fun yr => (yr.1, x :: yr.2)
+
 /-- Worklist closure: `while pending: x = pending.pop(); if x in seen: continue; seen.add(x);
-result |= succ(x); pending |= succ(x)`. `choices` = which element `pop()` takes at each step
-(index into the pending list, modulo its length). State: (seen, pending, result). -/
+result |= succ(x); pending |= succ(x)`. `choice` = which element `pop()` takes at this step
+(position in the pending list, modulo its length). State: (seen, pending, result). -/
 def closureStep (succ : Nat → List Nat) (choice : Nat) (st : List Nat × List Nat × List Nat) :
     List Nat × List Nat × List Nat :=
-  let (seen, pending, result) := st
-  match pending with
-  | [] => st
-  | _ :: _ =>
-    let i := choice % pending.length
-    let x := pending.getD i 0
-    let pending' := pending.eraseIdx i
-    if seen.contains x then (seen, pending', result)
-    else (x :: seen, pending' ++ (succ x).filter (fun y => !pending'.contains y),
-          result ++ (succ x).filter (fun y => !result.contains y))
+  match removeAt (choice % st.2.1.length) st.2.1 with
+  | none => st
+  | some (x, pending') =>
+    if st.1.contains x then (st.1, pending', st.2.2)
+    else (x :: st.1, pending' ++ (succ x).filter (fun y => !pending'.contains y),
+          st.2.2 ++ (succ x).filter (fun y => !st.2.2.contains y))
 
 def closureRun (succ : Nat → List Nat) (start : Nat) (choices : List Nat) :
     List Nat × List Nat × List Nat :=
@@ -224,20 +241,20 @@ abbrev Vid := Nat
 inductive Atom
   | const (b : Bool)          -- decided without Any and without protocols
   | anyOk                     -- `actual` is Any: accepted unless `ctx.should_exclude_any()`
-  | sub (p : Pid) (v : Vid)   -- `TypedValue(p).can_assign(v)`: nested protocol check
+  | sub (p : Pid) (a : Nat) (v : Vid)   -- `GenericValue(p, args_a).can_assign(v)`: nested protocol check
   deriving DecidableEq, Repr, Inhabited
 
-/-- The world: for (protocol, value) the members in iteration order, each a conjunction of slot
-checks evaluated left to right; `tobj v` = the TypeObject of value `v` (several values can share
+/-- The world: for (protocol class, variant of its generic arguments, value) the members in
+iteration order, each a conjunction of slot checks evaluated left to right; `tobj v` = the TypeObject of value `v` (several values can share
 one: `KnownValue(C())`, `TypedValue(C)`). Pairs not listed have the single member `[const false]`
 ("has no attribute"). -/
 structure World where
-  reqs : List ((Pid × Vid) × List (List Atom))
+  reqs : List ((Pid × Nat × Vid) × List (List Atom))
   tobjs : List (Vid × Nat)
   deriving Repr, Inhabited
 
-def World.req (W : World) (p : Pid) (v : Vid) : List (List Atom) :=
-  (W.reqs.lookup (p, v)).getD [[.const false]]
+def World.req (W : World) (p : Pid) (a : Nat) (v : Vid) : List (List Atom) :=
+  (W.reqs.lookup (p, a, v)).getD [[.const false]]
 
 def World.tobj (W : World) (v : Vid) : Nat := (W.tobjs.lookup v).getD v
 
@@ -249,20 +266,20 @@ structure St where
   deriving Repr, Inhabited, DecidableEq
 
 /-- One slot. `rec` is the nested `TypeObject.can_assign`. -/
-def evalAtom (rec : St → Pid → Vid → Bool × St) (ex : Bool) (st : St) : Atom → Bool × St
+def evalAtom (rec : St → Pid → Nat → Vid → Bool × St) (ex : Bool) (st : St) : Atom → Bool × St
   | .const b => (b, st)
   | .anyOk => (!ex, st)
-  | .sub p v => rec st p v
+  | .sub p a v => rec st p a v
 
 /-- The slots of one member, left to right, stopping at the first error. -/
-def evalAll (rec : St → Pid → Vid → Bool × St) (ex : Bool) : St → List Atom → Bool × St
+def evalAll (rec : St → Pid → Nat → Vid → Bool × St) (ex : Bool) : St → List Atom → Bool × St
   | st, [] => (true, st)
   | st, a :: as =>
     let r := evalAtom rec ex st a
     if r.1 then evalAll rec ex r.2 as else (false, r.2)
 
 /-- `_is_compatible_with_protocol`: the members in order, return at the first error. -/
-def evalMembers (rec : St → Pid → Vid → Bool × St) (ex : Bool) : St → List (List Atom) → Bool × St
+def evalMembers (rec : St → Pid → Nat → Vid → Bool × St) (ex : Bool) : St → List (List Atom) → Bool × St
   | st, [] => (true, st)
   | st, m :: ms =>
     let r := evalAll rec ex st m
@@ -270,14 +287,14 @@ def evalMembers (rec : St → Pid → Vid → Bool × St) (ex : Bool) : St → L
 
 /-- type_object.py `TypeObject.can_assign`, protocol branch (:146‥164). `ex` =
 `ctx.should_exclude_any()`. Fuel: Python recurses until the guard fires. -/
-def check (W : World) (ex : Bool) : Nat → St → Pid → Vid → Bool × St
-  | 0, st, _, _ => (false, st)
-  | n + 1, st, p, v =>
+def check (W : World) (ex : Bool) : Nat → St → Pid → Nat → Vid → Bool × St
+  | 0, st, _, _, _ => (false, st)
+  | n + 1, st, p, a, v =>
     if st.cache.contains (p, v) then (true, st)                     -- :146-148 cache hit
     else if st.stack.contains (p, W.tobj v) then (true, st)         -- :150-151 guard
     else
       let st1 := { st with stack := st.stack ++ [(p, W.tobj v)] }   -- :152 assume_compatibility
-      let r := evalMembers (check W ex n) ex st1 (W.req p v)        -- :153
+      let r := evalMembers (check W ex n) ex st1 (W.req p a v)      -- :153
       let st2 := { r.2 with stack := r.2.stack.dropLast }           -- checker.py:241 pop
       if r.1 then (true, { st2 with cache := (p, v) :: st2.cache }) -- :162-163
       else (false, st2)
@@ -286,21 +303,22 @@ def check (W : World) (ex : Bool) : Nat → St → Pid → Vid → Bool × St
 structure Query where
   ex : Bool
   p : Pid
+  a : Nat
   v : Vid
   deriving DecidableEq, Repr, Inhabited
 
 /-- The checker state after a history of top-level queries. -/
 def runHist (W : World) (fuel : Nat) (st : St) (h : List Query) : St :=
-  h.foldl (fun s q => (check W q.ex fuel s q.p q.v).2) st
+  h.foldl (fun s q => (check W q.ex fuel s q.p q.a q.v).2) st
 
 /-- The answers along a history (for the driver). -/
 def answers (W : World) (fuel : Nat) : St → List Query → List Bool
   | _, [] => []
-  | st, q :: h => let r := check W q.ex fuel st q.p q.v; r.1 :: answers W fuel r.2 h
+  | st, q :: h => let r := check W q.ex fuel st q.p q.a q.v; r.1 :: answers W fuel r.2 h
 
 /-- The answer to `q` after history `h` in a fresh process. -/
 def answerAfter (W : World) (fuel : Nat) (h : List Query) (q : Query) : Bool :=
-  (check W q.ex fuel (runHist W fuel {} h) q.p q.v).1
+  (check W q.ex fuel (runHist W fuel {} h) q.p q.a q.v).1
 
 /-- The answer to `q` from a fresh checker. -/
 def answerFresh (W : World) (fuel : Nat) (q : Query) : Bool := answerAfter W fuel [] q
@@ -309,47 +327,56 @@ def answerFresh (W : World) (fuel : Nat) (q : Query) : Bool := answerAfter W fue
 
 /-- State of the repaired check: cache entries carry the mode. -/
 structure St2 where
-  cache : List (Bool × Pid × Vid) := []
+  cache : List (Bool × Nat × Pid × Vid) := []
   stack : List (Pid × Nat) := []
   deriving Repr, Inhabited, DecidableEq
 
-def evalAtom2 (rec : St2 → Pid → Vid → Bool × St2) (ex : Bool) (st : St2) : Atom → Bool × St2
+def evalAtom2 (rec : St2 → Pid → Nat → Vid → Bool × St2) (ex : Bool) (st : St2) : Atom → Bool × St2
   | .const b => (b, st)
   | .anyOk => (!ex, st)
-  | .sub p v => rec st p v
+  | .sub p a v => rec st p a v
 
-def evalAll2 (rec : St2 → Pid → Vid → Bool × St2) (ex : Bool) : St2 → List Atom → Bool × St2
+def evalAll2 (rec : St2 → Pid → Nat → Vid → Bool × St2) (ex : Bool) : St2 → List Atom → Bool × St2
   | st, [] => (true, st)
   | st, a :: as =>
     let r := evalAtom2 rec ex st a
     if r.1 then evalAll2 rec ex r.2 as else (false, r.2)
 
-def evalMembers2 (rec : St2 → Pid → Vid → Bool × St2) (ex : Bool) :
+def evalMembers2 (rec : St2 → Pid → Nat → Vid → Bool × St2) (ex : Bool) :
     St2 → List (List Atom) → Bool × St2
   | st, [] => (true, st)
   | st, m :: ms =>
     let r := evalAll2 rec ex st m
     if r.1 then evalMembers2 rec ex r.2 ms else (false, r.2)
 
-/-- `check` with the cache keyed by (mode, value) [`modeKey`] and/or written only when no
-assumption is in force [`topOnly`]. -/
-def check2 (W : World) (modeKey topOnly : Bool) (ex : Bool) : Nat → St2 → Pid → Vid → Bool × St2
-  | 0, st, _, _ => (false, st)
-  | n + 1, st, p, v =>
-    if st.cache.contains (modeKey && ex, p, v) then (true, st)
+/-- `check` with the cache keyed additionally by the mode [`modeKey`] and/or by the generic
+arguments of the protocol [`argKey`], and/or written only when no assumption is in force
+[`topOnly`]. -/
+def check2 (W : World) (modeKey argKey topOnly : Bool) (ex : Bool) :
+    Nat → St2 → Pid → Nat → Vid → Bool × St2
+  | 0, st, _, _, _ => (false, st)
+  | n + 1, st, p, a, v =>
+    if st.cache.contains (modeKey && ex, (if argKey then a else 0), p, v) then (true, st)
     else if st.stack.contains (p, W.tobj v) then (true, st)
     else
       let st1 := { st with stack := st.stack ++ [(p, W.tobj v)] }
-      let r := evalMembers2 (check2 W modeKey topOnly ex n) ex st1 (W.req p v)
+      let r := evalMembers2 (check2 W modeKey argKey topOnly ex n) ex st1 (W.req p a v)
       let st2 := { r.2 with stack := r.2.stack.dropLast }
       if r.1 then
         (true, if topOnly && !st2.stack.isEmpty then st2
-               else { st2 with cache := (modeKey && ex, p, v) :: st2.cache })
+               else { st2 with cache := (modeKey && ex, (if argKey then a else 0), p, v) :: st2.cache })
       else (false, st2)
 
-def answerAfter2 (W : World) (modeKey topOnly : Bool) (fuel : Nat) (h : List Query) (q : Query) :
-    Bool :=
-  let st := h.foldl (fun s q => (check2 W modeKey topOnly q.ex fuel s q.p q.v).2) {}
-  (check2 W modeKey topOnly q.ex fuel st q.p q.v).1
+/-- The answers of the repaired check along a history (for the driver). -/
+def answers2 (W : World) (modeKey argKey topOnly : Bool) (fuel : Nat) : St2 → List Query → List Bool
+  | _, [] => []
+  | st, q :: h =>
+    let r := check2 W modeKey argKey topOnly q.ex fuel st q.p q.a q.v
+    r.1 :: answers2 W modeKey argKey topOnly fuel r.2 h
+
+def answerAfter2 (W : World) (modeKey argKey topOnly : Bool) (fuel : Nat) (h : List Query)
+    (q : Query) : Bool :=
+  let st := h.foldl (fun s q => (check2 W modeKey argKey topOnly q.ex fuel s q.p q.a q.v).2) {}
+  (check2 W modeKey argKey topOnly q.ex fuel st q.p q.a q.v).1
 
 end Pya.C10
